@@ -572,7 +572,7 @@ def gen_c06(ch, prof):
     req_nodes = [n for n in order if required_by(n)]
     at = ch.rng_int('fault', 300, 3000) * MS
     plus = ch.rng_int('fault', 0, 60)
-    classes = ['none', 'restart']
+    classes = ['none', 'restart', 'graceful_restart']
     # a publisher with no connected output at all waits for one (start-up behaviour), so the silent death of the *sole*
     # consumer of a publisher is not something frames can "flow again" after: only victims with a sibling consumer
     die_candidates = [n for n in nonreq_sinks
@@ -583,13 +583,20 @@ def gen_c06(ch, prof):
         classes += ['die_nonreq']
     if req_nodes:
         classes += ['req_returns']
-    cls = classes[ch.weighted('fault', [1, 6] + [2] * (len(classes) - 2))]
+    cls = classes[ch.weighted('fault', [1, 6, 2] + [2] * (len(classes) - 3))]
     sc['fault_class'] = cls
     faults = []
     if cls == 'restart':
         victim = ch.pick('fault', order)
         delay = ch.pick('fault', [0, 200, int(ct * 1.4)]) * MS
         faults.append({'kind': 'kill', 'node': victim, 'at_ns': at, 'plus_steps': plus, 'restart_after_ns': delay})
+    elif cls == 'graceful_restart':
+        # clean shutdown (stop event: CLOSE / exit messages are sent) and a new incarnation; nobody obeys the exit message
+        victim = ch.pick('fault', order)
+        for n in order:
+            nodes[n]['obey_exit'] = 'none'
+        faults.append({'kind': 'stop', 'node': victim, 'at_ns': at, 'plus_steps': plus,
+                       'restart_after_ns': ch.pick('fault', [0, 200, int(ct * 1.4)]) * MS})
     elif cls == 'stall_nonreq':
         victim = ch.pick('fault', nonreq_sinks)
         faults.append({'kind': 'stall', 'node': victim, 'at_ns': at, 'plus_steps': plus,
